@@ -60,7 +60,8 @@ Inductive rop :=
 | Track (ph : phantom) (id : ident) (r : reginfo)
 | Validate (ph : phantom) (id : ident) (r : reginfo)
 | Expire (ph : phantom) (id : ident)
-| Sweep.                                   (* removeOldRegistrations with nothing timed out *)
+| Sweep                                    (* removeOldRegistrations with nothing timed out *)
+| ExpireAll.                               (* the lifetime of everything tracked so far runs out, then the sweep *)
 
 Definition step (st : registry) (op : rop) : registry :=
   match op with
@@ -68,6 +69,7 @@ Definition step (st : registry) (op : rop) : registry :=
   | Validate ph id r => validate st ph id r
   | Expire ph id => expire st ph id
   | Sweep => st
+  | ExpireAll => []
   end.
 
 Definition run (ops : list rop) : registry := fold_left step ops [].
